@@ -308,6 +308,36 @@ func runC12(c *Ctx) {
 					"completion rule assigns the update revision", "the completion rule assigns something other than status.updateRevision")
 				want := c.Want(f2, as.Pos(), `$1.Spec.UpdateStrategy.Type == "RollingUpdate" && $2.UpdatedReplicas == $2.Replicas && $2.ReadyReplicas == $2.Replicas`, setParam, lselX)
 				c.Implies(a2.StateBefore(as), want, "C12.3-completion-rule-guard", name, as.Pos())
+				// the counter moves with the name: where the completion rule ran, every exit of the function has
+				// currentReplicas == updatedReplicas (the pods counted as updated are now the pods at the current revision)
+				same := c.Want(f2, fi.Decl.Body.Rbrace, "$1.CurrentReplicas == $1.UpdatedReplicas", lselX)
+				aC := f2.FromAfter(as, a2.StateAfter(as))
+				okCount, nExit := true, 0
+				exits := func(st gf.State) {
+					if !st.Reachable() {
+						return
+					}
+					nExit++
+					if g, _ := st.Implies(same); !g {
+						okCount = false
+					}
+				}
+				ownNodes(fi.Decl.Body, func(x ast.Node) {
+					if ret, isRet := x.(*ast.ReturnStmt); isRet {
+						exits(aC.StateBefore(ret))
+					}
+				})
+				if ir := f2.ImplicitReturn(); ir != nil {
+					exits(aC.StateBefore(ir))
+				}
+				// (the counter may be set before the name: then the fact is already there at the store)
+				if !okCount || nExit == 0 {
+					if g, _ := a2.StateAfter(as).Implies(same); g {
+						okCount, nExit = true, 1
+					}
+				}
+				c.Check(okCount && nExit > 0, "C12.3-completion-moves-the-counter", name, as.Pos(), "currentReplicas == updatedReplicas wherever the completion rule has run",
+					"the completion rule renames the current revision without moving currentReplicas to updatedReplicas: the status then counts the pods of the old current revision under the new name")
 			}
 		}
 	}
